@@ -273,6 +273,8 @@ pub fn c01_cases(b: &Bounds) -> Vec<CaseDesc> {
     for l in crate::vals::text_alphabet(b.large) {
         cases.push(CaseDesc::Name { label: l.0 });
     }
+    cases.extend(crate::codec::near_name_cases());
+    cases.extend(crate::codec::text_cases());
     for n in [255usize, 256, 257, 300, 1000] {
         cases.push(CaseDesc::Wide { n });
     }
@@ -292,6 +294,8 @@ pub fn c02_cases(b: &Bounds) -> Vec<CaseDesc> {
     for l in crate::vals::text_alphabet(b.large) {
         cases.push(CaseDesc::Name { label: l.0 });
     }
+    cases.extend(crate::codec::near_name_cases());
+    cases.extend(crate::codec::text_cases());
     for d in [1usize, 2, 3, 10, 100, 300] {
         cases.push(CaseDesc::Chain { depth: d });
     }
@@ -346,6 +350,7 @@ pub fn check_c01(run: &Run) -> Value {
     }
     let (c0, e0) = (total.cases, total.executions);
     let scalar = crate::scalar::sweep(run, crate::scalar::Which::RoundTrip, &mut total);
+    let mixed = crate::mixed::sweep(run, "C01", &mut total);
     total.report(run);
     println!(
         "C01 sweep: cases={} roundtrips={} outcomes={:?} scalar={}",
@@ -353,6 +358,7 @@ pub fn check_c01(run: &Run) -> Value {
     );
     json!({
         "scalar_sweep": scalar,
+        "mixed_type_columns": mixed,
         "states": total.cases,
         "transitions": total.executions,
         "traces_validated_against_impl": total.executions,
